@@ -27,6 +27,9 @@ type sigintScenario struct {
 	HoldMs int       `json:"holdMs"`
 	Kinds  []reqKind `json:"kinds"`
 	After  bool      `json:"after"` // send SIGINT only after all responses arrived
+	// Signals > 1: the operator (or a supervisor) repeats the interrupt while the service drains; a repeated stop request is
+	// still a stop request, the drain must complete all the same
+	Signals int `json:"signals"`
 }
 
 func countLines(path, needle string) int {
@@ -63,7 +66,7 @@ func init() {
 			die("keys file %s missing", keys)
 		}
 		for si, sc := range cs.Scenarios {
-			id := fmt.Sprintf("sigint%d/k=%d/hold=%s/after=%v", si, sc.K, sc.Hold, sc.After)
+			id := fmt.Sprintf("sigint%d/k=%d/hold=%s/after=%v/signals=%d", si, sc.K, sc.Hold, sc.After, max(sc.Signals, 1))
 			r := Result{ID: id, OK: true, Kind: "sigint"}
 			fail := func(format string, a ...interface{}) {
 				if r.OK {
@@ -150,6 +153,10 @@ func init() {
 				}
 			}
 			cmd.Process.Signal(syscall.SIGINT)
+			for extra := 1; extra < sc.Signals; extra++ {
+				time.Sleep(60 * time.Millisecond)
+				cmd.Process.Signal(syscall.SIGINT) // error if the process has already gone: nothing to repeat then
+			}
 			wg.Wait()
 			var exitErr error
 			select {
